@@ -71,7 +71,7 @@ func migrateInvoiceTaxCombo(tc *tax.Combo) {
 		for _, m := range taxRateVATExemptMigrationMap {
 			if m.Key == tc.Rate {
 				tc.Rate = tax.RateExempt
-				tc.Ext = m.Ext
+				tc.Ext = tax.Extensions{}.Merge(m.Ext) // a copy: the table is shared by every document
 				break
 			}
 		}
